@@ -121,6 +121,14 @@ class Folder:
                 o = self.ev(f.value, local)
                 if isinstance(o, dict):
                     return list(getattr(o, f.attr)()) if f.attr != "copy" else dict(o)
+            # a module-level helper that is a pure function of its arguments: `def f(a, b): [docstring] return <expr>`
+            if isinstance(f, ast.Name) and isinstance(self.env.get(f.id), ast.FunctionDef) and not e.keywords:
+                fd = self.env[f.id]
+                body = [st for st in fd.body if not (isinstance(st, ast.Expr) and isinstance(st.value, ast.Constant))]
+                params = [a.arg for a in fd.args.args]
+                if len(body) == 1 and isinstance(body[0], ast.Return) and body[0].value is not None and len(params) == len(e.args) \
+                        and not (fd.args.vararg or fd.args.kwarg or fd.args.kwonlyargs or fd.decorator_list):
+                    return self.ev(body[0].value, dict(zip(params, [self.ev(a, local) for a in e.args])))
             self.err(e, "call")
         if isinstance(e, ast.Attribute):
             o = self.ev(e.value, local)
@@ -190,6 +198,11 @@ class Folder:
                 self.err(st, "expression statement")
             elif isinstance(st, (ast.Import, ast.ImportFrom)):
                 continue
+            elif isinstance(st, ast.FunctionDef):
+                self.env[st.name] = st          # callable from later module-level statements if it is a pure one-expression helper
+            elif isinstance(st, ast.AnnAssign) and isinstance(st.target, ast.Name):
+                if st.value is not None:
+                    self.env[st.target.id] = self.ev(st.value)
             else:
                 self.err(st, "statement kind")
         return self.env
